@@ -1,7 +1,7 @@
 from core import Case, hexs
 from gen_util import *
 PID = "C01"
-SOURCE_TIE = ['tie_K256', 'tie_K512', 'tie_IV256', 'tie_IV512', 'tie_rounds', 'tie_IV1', 'tie_K1', 'tie_256_funcs', 'tie_512_funcs', 'tie_256_sched', 'tie_512_sched', 'tie_256_round', 'tie_512_round', 'tie_sha1_rol', 'tie_sha1_rounds', 'tie_sha1_blk', 'blk_idx_sweep']      # theorems of coq_tie/Tie_Source.v re-checked against Gen_Source.v regenerated from /repo on every run
+SOURCE_TIE = ['tie_K256', 'tie_K512', 'tie_IV256', 'tie_IV512', 'tie_rounds', 'tie_IV1', 'tie_K1', 'tie_256_funcs', 'tie_512_funcs', 'tie_256_sched', 'tie_512_sched', 'tie_256_round', 'tie_512_round', 'tie_sha1_rol', 'tie_sha1_rounds', 'tie_sha1_blk', 'blk_idx_sweep', 'tie_finish_params', 'tie_256_block_nb', 'tie_512_block_nb', 'block_nb_sweep_256', 'block_nb_sweep_512', 'tie_pm_len', 'tie_len_b']      # theorems of coq_tie/Tie_Source.v re-checked against Gen_Source.v regenerated from /repo on every run
 DRIVER = "drv_pure"
 RULE = ("every entry point (raw, ptr->vector, vector<uint8_t>, vector<char>, string->hex, get_hash x4) on one message vs "
         "model hash_oneshot; contexts with injected totals (2^29, 2^32, 2^61 boundaries) vs the context model; "
